@@ -300,4 +300,8 @@ func init() {
 		Old:    "func (q *BranchCaseType) inferModality(labelledTypesEnv LabelledTypesEnv, usedLabels map[string]bool) Modality {\n\t_, unset := q.Mode.(*UnsetMode)\n\tif !unset {\n\t\t// If the type already has a modality, then return it\n\t\treturn q.Mode\n\t}\n\n\tvar commonModes []Modality\n\tfor _, branch := range q.Branches {\n\t\tusedLabelsCopy := copyMap(usedLabels)\n\t\tbranchMode := branch.SessionType.inferModality(labelledTypesEnv, usedLabelsCopy)\n\t\tcommonModes = append(commonModes, branchMode)\n",
 		New:    "func (q *BranchCaseType) inferModality(labelledTypesEnv LabelledTypesEnv, usedLabels map[string]bool) Modality {\n\t_, unset := q.Mode.(*UnsetMode)\n\tif !unset {\n\t\t// If the type already has a modality, then return it\n\t\treturn q.Mode\n\t}\n\n\tvar commonModes []Modality\n\tfor _, branch := range q.Branches {\n\t\tusedLabelsCopy := copyMap(usedLabels)\n\t\tbranchMode := branch.SessionType.inferModality(labelledTypesEnv, usedLabelsCopy)\n\t\tcommonModes = append(commonModes, branchMode)\n\t\tif _, u := branchMode.(*UnsetMode); u {\n\t\t\tbreak\n\t\t}\n",
 		Expect: "sibling:inferModality"})
+	addFixture(Fixture{Name: "split-second-binder-not-instantiated", Rule: "R-BINDER-INSTANTIATED", File: "process/transition.go",
+		Old:    "\t\tcurrentProcessBody.Substitute(f.channel_two, newSplitNames[1])",
+		New:    "\t\tcurrentProcessBody.Substitute(f.channel_one, newSplitNames[1])",
+		Expect: "binder-channel_two"})
 }
